@@ -747,14 +747,27 @@ func (e *c15Env) tline(op, tags, verdict string, wf bool) {
 
 // judge compares the implementation's verdict with the property predicate.
 func (e *c15Env) judge(op, verdict, detail string, wf bool, why, panicSite, desc string) {
+	// verifkit prints only the first 200 failures of a run: report each class at most 12 times so that a
+	// frequent (known) class can never crowd out another one
+	fail := func(class, rest, detail string) {
+		if e.dev == nil {
+			e.dev = map[string]int{}
+		}
+		e.dev["F:"+class]++
+		if e.dev["F:"+class] <= 12 {
+			e.out.Fail(class+" "+rest, detail)
+		} else {
+			e.out.Count("class:failure-not-listed-again:" + class)
+		}
+	}
 	switch {
 	case verdict == "panic":
 		e.out.Count("class:panic")
-		e.out.Fail(fmt.Sprintf("panic:%s %s %s", panicSite, op, desc), "panic: "+detail)
+		fail("panic:"+panicSite, op+" "+desc, "panic: "+detail)
 	case strings.HasPrefix(verdict, "ok") && !wf:
-		e.out.Fail(fmt.Sprintf("accepted-illformed:%s %s %s", why, op, desc), "accepted although the property's clause `"+why+"` fails")
+		fail("accepted-illformed:"+why, op+" "+desc, "accepted although the property's clause `"+why+"` fails")
 	case verdict == "err" && wf:
-		e.out.Fail(fmt.Sprintf("rejected-wellformed:%s %s %s", why, op, desc), "rejected a well-formed configuration: "+detail)
+		fail("rejected-wellformed:"+why, op+" "+desc, "rejected a well-formed configuration: "+detail)
 	}
 	if strings.HasPrefix(verdict, "ok") {
 		e.out.Count("class:accepted")
@@ -1382,7 +1395,7 @@ func TestVerifC15(t *testing.T) {
 		e.multiCase(mc, l, infos, beTok, lcTok, desc)
 	}
 
-	n := verifkit.N(1500, 60000)
+	n := verifkit.N(5000, 150000)
 	for it := 0; it < n; it++ {
 		switch e.r.Intn(10) {
 		case 0, 1:
